@@ -5,6 +5,10 @@ mod explore;
 mod fam_clusterelect;
 mod fam_remoteactor;
 mod fam_factory;
+mod cluster_io;
+mod fam_clusterauth;
+mod fam_decode;
+mod fam_framing;
 mod fam_lifecycle;
 mod fam_mailbox;
 mod fam_mailbox_t;
@@ -79,6 +83,9 @@ fn main() {
         fam_rpc::dispatch,
         fam_outport::dispatch,
         fam_factory::dispatch,
+        fam_framing::dispatch,
+        fam_clusterauth::dispatch,
+        fam_decode::dispatch,
     ];
     for f in fams {
         if let Some(summary) = f(&cmd, &a) {
